@@ -45,20 +45,37 @@ let emit_record oc (tag : string) (r : record) =
                 "lm", JS (Int64.to_string r.lm); "ct", JS (Int64.to_string r.ct);
                 "ser", JS (fast_hex (serialize r)) ])
 
-(* the model's verdict on an arbitrary byte string.  Streams for which the model says the reader asks
-   for 16 MB or more in one make() are rationed: the real code does allocate (and zero) that much, about
-   a second per 4 GB request, so only huge_left of them are emitted per run *)
+(* what a reader WITHOUT the length checks would pass to make(): the first length prefix that exceeds
+   the rest of the input (0 when there is none).  The repaired code never allocates that; streams where
+   it is 16 MB or more are still rationed (huge_left per run), because a regression that drops the
+   check costs about a second per 4 GB request, and the runner measures the allocation on them *)
+let naive_request (data : string) : int =
+  let n = String.length data in
+  let u32 o = if o + 4 > n then -1 else
+      Char.code data.[o] lor (Char.code data.[o+1] lsl 8) lor (Char.code data.[o+2] lsl 16) lor (Char.code data.[o+3] lsl 24) in
+  if n = 0 || data.[0] <> '\x01' then 0 else
+    let l1 = u32 1 in
+    if l1 < 0 then 0 else if l1 > n - 5 then l1 else
+      let o2 = 5 + l1 in
+      let l2 = u32 o2 in
+      if l2 < 0 then 0 else if l2 > n - o2 - 4 then l2 else
+        let o3 = o2 + 4 + l2 + 16 in
+        let l3 = u32 o3 in
+        if l3 < 0 then 0 else if l3 > n - o3 - 4 then l3 else 0
+
+(* the model's verdict on an arbitrary byte string *)
 let huge_left = ref 0
 let huge_skipped = ref 0
 let emit_malformed oc (tag : string) (data : string) =
   let d = bytes_of_string data in
   let unmodelled = Model.gob_unmodelled d in
-  let alloc = List.fold_left (fun a x -> max a (int_of_n x)) 0 (Model.deserialize_allocs d) in
-  if alloc >= 1 lsl 24 && !huge_left <= 0 then incr huge_skipped else begin
-  if alloc >= 1 lsl 24 then decr huge_left;
+  let alloc = List.fold_left (fun a x -> a + int_of_n x) 0 (Model.deserialize_allocs d) in
+  let naive = naive_request data in
+  if naive >= 1 lsl 24 && !huge_left <= 0 then incr huge_skipped else begin
+  if naive >= 1 lsl 24 then decr huge_left;
   let binary_ok = (match Model.deserialize_binary d with Some _ -> true | None -> false) in
   let base = [ "stream", JS "malformed"; "tag", JS tag; "data", JS (fast_hex data);
-               "unmodelled", JB unmodelled; "alloc", JI alloc; "binary_ok", JB binary_ok ] in
+               "unmodelled", JB unmodelled; "alloc", JI alloc; "naive", JI naive; "binary_ok", JB binary_ok ] in
   (* a stream whose first byte is not the version byte: what the binary reader would make of it if it
      did not look at that byte (the runner reports an implementation that returns exactly this) *)
   let fields (c : Model.compiled) pre =
@@ -323,9 +340,9 @@ let run ~seed ~tier oc =
       emit_malformed oc "exhaustive-01xy" (Printf.sprintf "\x01%c%c" (Char.chr x) (Char.chr y))
     done
   done;
-  huge_left := if thorough then 40 else 3;
+  huge_left := if thorough then 60 else 12;
   List.iteri (fun i (_, rc) ->
-      malformed_from r oc rc ~huge:(if i = 0 then (if thorough then [ 0xffffffff; 0x80000000; 0x7fffffff ] else [ 0xffffffff ]) else if thorough && i < 4 then [ 0xffffffff; 0x80000000; 0x7fffffff ] else []))
+      malformed_from r oc rc ~huge:(if i < 2 then [ 0xffffffff; 0x80000000 ] else if thorough && i < 4 then [ 0xffffffff; 0x80000000; 0x7fffffff ] else []))
     fixed_records;
   let nmal = if thorough then 600 else 60 in
   for i = 1 to nmal do
